@@ -127,6 +127,7 @@ func TestFault(t *testing.T) {
 				}
 			}
 		}
+		parkWindow := false
 		runFault := func(name string, fs []Fault) {
 			if !mineByName(name) || !resume.want(name) {
 				return
@@ -134,6 +135,9 @@ func TestFault(t *testing.T) {
 			sc := cloneScenario(base)
 			sc.Name = name
 			sc.Faults = fs
+			if parkWindow {
+				sc.ParkAt = map[string]int{"UnregisterShard": 1500}
+			}
 			out.Begin(name, sc)
 			o := runInBubble(t, sc)
 			if o == nil {
@@ -164,8 +168,15 @@ func TestFault(t *testing.T) {
 			}
 			out.End(l)
 		}
-		for _, f := range single {
+		for fi, f := range single {
 			runFault(fmt.Sprintf("b%d/%s/%s/%s/%d/r%d", b, f.Side, f.Stream, f.Kind, f.N, f.ReconnectMS), []Fault{f})
+			// the same break with the dying sender held for 1.5 s between closing its delivery channel and
+			// deregistering it: hand-offs for that target land on the closed, still registered channel
+			if f.Side == "target" && (rec.Thorough() || fi%4 == 0) {
+				parkWindow = true
+				runFault(fmt.Sprintf("b%d/%s/%s/%s/%d/r%d/closed-channel-window", b, f.Side, f.Stream, f.Kind, f.N, f.ReconnectMS), []Fault{f})
+				parkWindow = false
+			}
 		}
 		// double faults: a second break during the recovery from the first
 		if doubles > 0 && len(single) > 1 {
